@@ -21,11 +21,17 @@ RULE_LIMITS = (
     "distinct by (world, query)")
 RULE_KSP = (
     "the same sweeps through SearchAlgorithm::KspSingleVia {k 1..3, underlying Dijkstra | A*, with/without cosine "
-    "similarity} and Yens {k 2} on random two-way digraphs (n <= 16) and the diamond; cases whose UNLIMITED driver "
-    "does not return (Yen's known defects) are skipped and counted. I vs M (single-via): which sub-search is stopped, "
-    "with which text, after which counters, else unchanged; Yens: no model (NOMODEL). I vs S: the clauses above on every "
-    "sub-search segment of the counters, result = unlimited driver result verbatim or the explicit error. Non-trivial = "
-    ">= 2 sub-searches and >= 1 entry terminated")
+    "similarity} and Yens {k 2..3}: the diamond, the spur network of seeded/C10-3 (first path of 4 expansions, spur "
+    "searches of 21 and 1 expansions; full sweep 0..needed+3), first paths of 3..5 edges whose spur vertices have "
+    "detours of 0..18 extra vertices (spur searches of very different lengths), random two-way digraphs (n <= 16); cases "
+    "whose UNLIMITED driver does not return (Yen's known defects) are skipped and counted. Observed per entry: the "
+    "driver's COMPLETE result (status, explanation, iterations, every tree, every route as its edge ids in order, digest "
+    "of all costs and states) and the counters of every limit test of every sub-search. I vs M (single-via): which "
+    "sub-search is stopped, with which text, after which counters, else unchanged; Yens: no model (NOMODEL). I vs S, "
+    "decided in Coq from the implementation's observations alone: every entry of the sweep is EXACTLY the unlimited "
+    "driver's result (route list included) or a 'terminated' error naming exactly the limits exceeded by the last "
+    "counters; no limit test before the last one was exceeded; the clauses (a) on every sub-search segment; monotone. "
+    "Non-trivial = >= 2 sub-searches and >= 1 entry terminated")
 RULE_PRED = ("terminate_search / explain_termination / test called directly on random model trees (depth <= 3, limits up to "
              "u64::MAX, frequency 0 / 1..6 / huge) with scripted clocks and counters <= 2000, plus the crate's own unit-test "
              "points and hhmmss boundaries; I vs M only. Non-trivial = the test fails (terminated)")
